@@ -47,6 +47,10 @@ def check(chk):
     cp = pm.cls("xeofs.cross.cpcca.CPCCA")
     fns = [m for c in (cp, pm.cls("ComplexCPCCA"), pm.cls("HilbertCPCCA"), pm.cls("BaseModelCrossSet")) for m in c.methods.values() if m.name != "__init__"]
     n = check_field_indices(chk, "INDEX", fns)
+    # what is done to one field is done to the other (fit and the metrics of the cross-set family)
+    from .fields import field_symmetry
+    nsym = field_symmetry(chk, "FIELD.symmetric", [m for m in fns if m.name not in ("transform", "_transform_algorithm", "inverse_transform", "_inverse_transform_algorithm")])
+    chk.require(nsym >= 8, f"FIELD.symmetric: only {nsym} two-field functions compared")
     chk.floor("NORM.pair", 6)
     chk.floor("CONJ.herm", 8)
     chk.floor("CONJ.model", 6)
